@@ -1022,19 +1022,21 @@ impl SvgElement {
     fn eval_size_attr(&self, name: &str, value: &str, ctx: &impl ElementMap) -> Result<String> {
         if let Ok(attr_ss) = ScalarSpec::from_str(name) {
             if let (Some(el), remain) = split_relspec(value, ctx)? {
-                if let Ok(Some(bbox)) = ctx.get_element_bbox(el) {
-                    // default value - same 'type' as attr name, e.g. y2 => ymax
-                    let mut v = bbox.scalarspec(attr_ss);
-                    // "[~scalarspec][ delta]"
-                    let (ss_str, dxy) = remain.split_once(' ').unwrap_or((remain, ""));
-                    if let Some(ss) = ss_str.strip_prefix(SCALARSPEC_SEP) {
-                        v = bbox.scalarspec(ss.parse()?);
-                    }
-                    if let Ok(len) = strp_length(dxy) {
-                        v = len.adjust(v);
-                    }
-                    return Ok(fstr(v));
+                // a reference to an element which has no bounding box can't be resolved
+                let bbox = ctx
+                    .get_element_bbox(el)?
+                    .ok_or_else(|| SvgdxError::MissingBoundingBox(el.to_string()))?;
+                // default value - same 'type' as attr name, e.g. y2 => ymax
+                let mut v = bbox.scalarspec(attr_ss);
+                // "[~scalarspec][ delta]"
+                let (ss_str, dxy) = remain.split_once(' ').unwrap_or((remain, ""));
+                if let Some(ss) = ss_str.strip_prefix(SCALARSPEC_SEP) {
+                    v = bbox.scalarspec(ss.parse()?);
                 }
+                if let Ok(len) = strp_length(dxy) {
+                    v = len.adjust(v);
+                }
+                return Ok(fstr(v));
             }
         }
         Ok(value.to_owned())
@@ -1043,9 +1045,11 @@ impl SvgElement {
     fn eval_pos_attr(&self, name: &str, value: &str, ctx: &impl ElementMap) -> Result<String> {
         if let Ok(attr_ss) = ScalarSpec::from_str(name) {
             if let (Some(el), remain) = split_relspec(value, ctx)? {
-                if let Ok(Some(bbox)) = ctx.get_element_bbox(el) {
-                    return self.pos_attr_helper(remain, &bbox, attr_ss);
-                }
+                // a reference to an element which has no bounding box can't be resolved
+                let bbox = ctx
+                    .get_element_bbox(el)?
+                    .ok_or_else(|| SvgdxError::MissingBoundingBox(el.to_string()))?;
+                return self.pos_attr_helper(remain, &bbox, attr_ss);
             }
         }
         Ok(value.to_owned())
